@@ -199,9 +199,27 @@ def make_pairing(nentries, props=("C17",), known=()):
                 f = _io.StringIO("DISK%d" % i)
                 f.name = path
                 return f
+        # a git clean filter configured for notebooks (working-tree side only):
+        # the REAL apply_possible_filter runs, with git's answers and the
+        # filter program stubbed (attribute 'filter=vf', clean command = a
+        # program that prefixes its input)
+        import nbdime.vcs.git.filter_integration as fi
+        with_filter = E.choice("clean-filter", 2) if remote_kind == 2 else 0
+
+        def fi_check_output(cmd, *a, **k):
+            if isinstance(cmd, list) and cmd[:2] == ["git", "check-attr"]:
+                return ("%s\x00filter\x00vf\x00" % cmd[-1]).encode("utf8")
+            if isinstance(cmd, list) and cmd[:2] == ["git", "config"]:
+                return b"vf-clean\x00"
+            return ("FILTERED:" + k["stdin"].read()).encode("utf8")
         saved = (gf.Repo, gf.apply_possible_filter, gf.io, nu.os, gf.os)
+        saved_fi = (fi.check_output, fi.io)
         gf.Repo = Repo            # the real get_repo walks up from the start directory
-        gf.apply_possible_filter = lambda p: p
+        if with_filter:
+            fi.check_output = fi_check_output
+            fi.io = FakeIO
+        else:
+            gf.apply_possible_filter = lambda p: p
         gf.io = FakeIO
         gf.BlobWrapper.__bases__ = (_io.StringIO,)
         nu.os = fake
@@ -219,6 +237,9 @@ def make_pairing(nentries, props=("C17",), known=()):
                     got2.append((fa, fb))
         finally:
             gf.Repo, gf.apply_possible_filter, gf.io, nu.os, gf.os = saved
+            fi.check_output, fi.io = saved_fi
+        E.goal("clean-filter-and-file-deleted-in-working-tree",
+               bool(with_filter) and any(s_[1] == "nb" and not s_[4] for s_ in spec))
         # expectation by construction
         def expectation(suffix):
             want = []
@@ -230,7 +251,7 @@ def make_pairing(nentries, props=("C17",), known=()):
                     if kind is None:
                         return "MISSING"
                     if is_remote and remote_kind == 2:
-                        return "DISK%d" % i if ondisk else "MISSING"
+                        return (("FILTERED:" if with_filter else "") + "DISK%d" % i) if ondisk else "MISSING"
                     if not blob:
                         return "MISSING"
                     return (("B%d" if (is_remote and not same) else "A%d") % i) + suffix
